@@ -782,7 +782,7 @@ bool qlisttbl_getnext(qlisttbl_t *tbl, qlisttbl_obj_t *obj, const char *name,
     }
     qlisttbl_unlock(tbl);
 
-    if (ret == false) {
+    if (ret == false && errno != ENOMEM) {
         errno = ENOENT;
     }
 
